@@ -180,8 +180,9 @@ def check(R, F, P, cfg):
         R.inst("R5.3", "new-passes-is_finalizing", ok, "new_with_counter_to_one(%s); required state.is_finalizing()" % fmt(a), where=n.where(), cfg=cfg)
     nw = anchor(F, CM + "new_with_counter_to_one")
     S = Super(P, nw, opaque=set())
-    mask = F.const("counter_marker::FINALIZED_MASK")
-    cmask = F.const("counter_marker::COUNTER_MASK")
+    _L = word_layout(F)
+    mask = _L["FM"] if _L["FM"] is not None else F.const("counter_marker::FINALIZED_MASK")
+    cmask = _L["CMASK"]
     ps = tables.normal_paths(S)
     bad = []
     for p in ps:
